@@ -41,7 +41,9 @@ def step (c : Conn) : Op → Conn
   | .udisc => xmppDisconnect c
   | .setFlags f => (setFlags c f).1
   | .release => release c
-  | .addUserHandlers => addTimed (addHandler c .userAll 0 none none none true) .userTimed 1000 true
+  | .addUserHandlers =>
+    -- the application's catch-all stanza handler, the same function as an id handler, a timed handler
+    addTimed (addIdHandler (addHandler c .userAll 0 none none none true) .userAll (b "uid1") true) .userTimed 1000 true
   | .setSmCallback => { c with smCallback := true }
 
 def exec (c : Conn) (ops : List Op) : Conn := ops.foldl step c
